@@ -1,17 +1,19 @@
 #!/bin/bash
 # dev: run N cases of a property with the dev worker and summarise (usage: devrun.sh C15 0 60 [seed])
 p=$1; from=${2:-0}; to=${3:-60}; seed=${4:-5}
-cat > /var/tmp/dev/job3.json <<EOJ
-{"property":"$p","tier":"quick","seed":$seed,"mode":"cases","from":$from,"to":$to,"out":"/var/tmp/dev/out3.json","shrink_ms":4000,"nshards":${NSH:-0}}
+cat > ${DEVDIR:-/var/tmp/dev}/job3.json <<EOJ
+{"property":"$p","tier":"quick","seed":$seed,"mode":"cases","from":$from,"to":$to,"out":"${DEVDIR:-/var/tmp/dev}/out3.json","shrink_ms":4000,"nshards":${NSH:-0}}
 EOJ
-VERIF_JOB=/var/tmp/dev/job3.json GOMAXPROCS=1 /var/tmp/dev/worker-${PROFILE:-client}.test -test.run TestWorker -test.timeout 0 2>&1 | grep -v '^PASS\|"level"' | tail -25
+VERIF_JOB=${DEVDIR:-/var/tmp/dev}/job3.json GOMAXPROCS=1 ${DEVDIR:-/var/tmp/dev}/worker-${PROFILE:-client}.test -test.run TestWorker -test.timeout 0 2>&1 | grep -v '^PASS\|"level"' | tail -25
 python3 - <<'EOP'
 import json
-o=json.load(open('/var/tmp/dev/out3.json'))
+import os
+D=os.environ.get('DEVDIR','/var/tmp/dev')
+o=json.load(open(D+'/out3.json'))
 print({k:o[k] for k in ['cases','runs','steps','determinism_failures','errors','wall_s']})
 print(json.dumps(o['violation_counts'],indent=1))
 for f in (o['found'] or []):
     print('----',f['violation']['class'], f['replay']['config'], f['replay']['spec'].get('params'))
     print(f['violation']['message'][:900])
-    json.dump(f['replay'],open('/var/tmp/dev/found-'+f['violation']['class'].replace('/','_').replace(':','_')[:60]+'.json','w'))
+    json.dump(f['replay'],open(D+'/found-'+f['violation']['class'].replace('/','_').replace(':','_')[:60]+'.json','w'))
 EOP
